@@ -45,6 +45,12 @@ def case_condition(R, D, diag, sorted_b):
             fail_if(fails, PROPERTY, "condition_on_explicit:M", "explicit conditional: rows of M not in the requested order", np.asarray(E.M), np.asarray(C.M)[:, perm], params=params)
             fail_if(fails, PROPERTY, "condition_on_explicit:b", "explicit conditional: b", np.asarray(E.b), np.asarray(C.b)[:, perm], params=params)
             fail_if(fails, PROPERTY, "condition_on_explicit:Sigma", "explicit conditional: Sigma", np.asarray(E.Sigma), np.asarray(C.Sigma)[:, perm][:, :, perm], params=params)
+            fail_if(fails, PROPERTY, "condition_on_explicit:ln_det_Sigma", "explicit conditional: ln_det_Sigma (row order does not change it)", np.asarray(E.ln_det_Sigma), np.asarray(C.ln_det_Sigma), params=params)
+            # the product rule for the explicit conditional, rows in the requested order
+            pe = m.condition_on_x(ce, xbr)
+            xa_p = xa[:, perm]
+            eve = np.asarray(m.regs[m.evalln(pe, m.arr(xa_p))])
+            fail_if(fails, PROPERTY, "condition_on_explicit", "explicit conditional: p(x_a|x_b) p(x_b) != p(x)", eve, exp, params=params)
         else:
             fails.append(failure(PROPERTY, "condition_on_explicit", f"raised: {m.impl[-1][1:]}", params=params))
         return fails
